@@ -25,7 +25,7 @@ def rand_packet(rng, nmodes):
     return bytes(b)
 
 
-def gen_case(rng, i, tier):
+def gen_case(rng, i, tier, force=None):
     ch = rng.choice([1, 1, 2, 2, 3, 6] + ([255] if i % 50 == 17 else []))
     b0 = rng.choice([6, 6, 7, 8, 9])
     b1 = rng.choice([x for x in (6, 7, 8, 9, 10, 11, 13) if x >= b0])
@@ -34,7 +34,9 @@ def gen_case(rng, i, tier):
     style = rng.random()
     setup = t.pack()
     tag = "valid"
-    if style < 0.45:
+    if force == "index":
+        setup, tag = G.mutate(rng, t, index_only=True)
+    elif style < 0.45:
         pass
     elif style < 0.9:
         setup, tag = G.mutate(rng, t)
@@ -44,7 +46,7 @@ def gen_case(rng, i, tier):
             setup = b"\x05vorbis" + setup
         tag = "random"
     idh = G.ident(ch, rate, b0, b1)
-    if rng.random() < 0.12:
+    if rng.random() < 0.12 and not force:
         k = rng.random()
         if k < 0.25:
             idh = G.ident(ch, rate, b0, b1, version=1)
@@ -57,7 +59,7 @@ def gen_case(rng, i, tier):
     lines = ["case %d" % i, "new"]
     order = rng.random()
     hdrs = [("1", idh), ("0", G.comment()), ("0", setup)]
-    if order < 0.8:
+    if order < 0.8 or force:
         pass
     elif order < 0.9:
         rng.shuffle(hdrs)
@@ -127,6 +129,15 @@ def run(chk):
     os.environ.setdefault("VERIF_CASE_TIMEOUT", "30")       # no call of this stream takes a second; one that never returns is cut off here
     res = vlib.run_pair("c02", corpus + cases, timeout=1200)
     dis, crash, ofail = common.judge_pairs(chk, "c02", res, oracle)
+    if dis and not crash and not ofail:
+        # the parse correspondence broke but nothing crashed: search (library only, sanitizer build) among set-ups in which a field naming an entry of
+        # another table, or a table's count, sits around every table's count — the inputs a wrong range check lets through
+        extra = [gen_case(chk.rng, 500000 + j, chk.tier, force="index")[0] for j in range(2500 if chk.tier == "quick" else 20000)]
+        xres = vlib.run_harness_only("c02", extra, variant="san", timeout=1200)
+        xc = [dict(r, m=None, rc_m=0, err_m="") for r in xres if r["c"] is None or (r["rc_c"] != 0 and r["err_c"])]
+        crash += xc
+        chk.coverage["escalation_cases"] = len(extra)
+        chk.coverage["escalation_crashes"] = len(xc)
     dist = {"setup_accepted": 0, "setup_rejected": 0, "init_ok": 0, "init_failed": 0, "pkt_decoded": 0, "pkt_rejected": 0, "samples_out": 0}
     reject_by = {}
     for k, r in enumerate(res):
